@@ -24,9 +24,26 @@ package meter
 //@   modifies fieldmem(progressMeter.count)
 //@ func (*progressMeter).Add
 //@   modifies fieldmem(progressMeter.count)
+// Lock discipline (the sequential core of "no line after the final line"):
+// every frame is written inside the critical section in which the ticker was
+// found to be still current; Done() cancels the ticker and writes the final
+// line inside one critical section. nLock/nUnlock count the mutex calls.
 //@ func (*progressMeter).Done
 //@   modifies fieldmem(progressMeter.ticker)
+//@   ghost nLock counts Mutex).Lock
+//@   ghost nUnlock counts Mutex).Unlock
 //@   call 0 fmt.Fprintf assert arg_0 == box(p.w, "io.Writer")
+//@   call 0 fmt.Fprintf assert nLock == nUnlock + 1 && p.ticker == nil
+
+//@ func (*progressMeter).Start$1
+//@   requires len(Spinners) > 0 && (*p).spinnerIndex >= 0 && (*p).spinnerIndex < len(Spinners)
+//@   modifies everything
+//@   ghost nLock counts Mutex).Lock
+//@   ghost nUnlock counts Mutex).Unlock
+//@   loop 0 invariant nLock == nUnlock
+//@   loop 0 invariant len(Spinners) > 0 && (*p).spinnerIndex >= 0 && (*p).spinnerIndex < len(Spinners)
+//@   call 0 fmt.Fprintf assert nLock == nUnlock + 1 && (*p).ticker == *ticker
+//@   call 0 fmt.Fprintf assert arg_0 == box((*p).w, "io.Writer")
 //@ func (noProgressMeter).Start
 //@   pure
 //@ func (noProgressMeter).Inc
@@ -36,4 +53,4 @@ package meter
 //@ func (noProgressMeter).Done
 //@   pure
 
-//@ property C18: (*progressMeter).Start (*progressMeter).Inc (*progressMeter).Add (*progressMeter).Done (noProgressMeter).Start (noProgressMeter).Inc (noProgressMeter).Add (noProgressMeter).Done
+//@ property C18: (*progressMeter).Start$1 (*progressMeter).Start (*progressMeter).Inc (*progressMeter).Add (*progressMeter).Done (noProgressMeter).Start (noProgressMeter).Inc (noProgressMeter).Add (noProgressMeter).Done
